@@ -237,7 +237,9 @@ class C15(Check):
         boundary = r.random() < 0.5
         a, b, dist = [], [], []
         for d in range(dim):
-            fam = r.choice(["Uniform", "Uniform", "Triangle", "Normal", "Normal"])
+            # with boundary points a normal distribution needs a finite interval, which is the known finding of this property
+            # (truncated mass kept): drawn less often there so that most runs stay fully armed
+            fam = r.choice(["Uniform", "Uniform", "Triangle", "Normal", "Normal"] if not boundary else ["Uniform", "Uniform", "Uniform", "Triangle", "Triangle", "Normal"])
             if fam == "Normal":
                 mu, sigma = round(r.uniform(-1, 1), 2), r.choice([0.5, 1.0, 2.0])
                 if not boundary and r.random() < 0.6:
